@@ -320,12 +320,13 @@ func (chkC05) CheckState(w *World, s *Snap, st State) []Viol {
 		if p.State != etypes.PaymentOpen || p.AccountID.Scope != "deployment" {
 			continue
 		}
-		id, ok := mtypes.LeaseIDFromEscrowAccount(p.AccountID, p.PaymentID)
-		if !ok {
+		// map the payment back to its lease by hand: "<owner>/<dseq>" + "<gseq>/<oseq>/<provider>" (owner kept as spelled)
+		lk := p.AccountID.XID + "/" + p.PaymentID
+		if strings.Count(lk, "/") != 4 {
 			out = append(out, Viol{"C05.lease-payment", "payment-unparsable", "open payment that maps to no lease: " + shortKey(w, pk)})
 			continue
 		}
-		if l, ok := s.Leases[bid(mtypes.BidID(id))]; !ok || l.State != mtypes.LeaseActive {
+		if l, ok := s.Leases[lk]; !ok || l.State != mtypes.LeaseActive {
 			out = append(out, Viol{"C05.lease-payment", "payment-open/lease-not-active", fmt.Sprintf("payment %s is open but there is no active lease for it", shortKey(w, pk))})
 		}
 	}
